@@ -2,14 +2,45 @@
 from common import *
 import re
 
-CLAIMED = False   # set True by the owner once ./check C09 passes with real theorems
+CLAIMED = True
 LEVEL = 'proof'
-LEVEL_TEXT = 'TODO'
-LEVEL_NOTE = 'TODO'
-RULE = 'TODO'
+LEVEL_TEXT = ('Proof: 13 Coq theorems over the Gallina model of ImageRaw / ContiguousPixels / SubImage / Image '
+              '(coq/Model/Imageraw.v, line-by-line incl. the raw load for all 7 raw widths x 2 data orders, the saturating '
+              'nth() of RawDataIterator, the remaining_x/remaining_y/row_skip state machine as the list it yields, the five '
+              'rejection tests of draw_sub_image, SubImage::new = intersection with the parent box, nested re-basing, '
+              'Image::new/with_center through Translated). Proved for every image accepted by ImageRaw::new with extents up to '
+              '2^29 and every chain of sub_image calls: new accepts exactly bytes_per_row*height bytes (new_ok_iff); pixel is None '
+              'exactly outside the box (pixel_none_iff); pixel(x,y) is raw item y*data_width+x and equally item x of the y-th '
+              'bytes_per_row-byte slice (pixel_layout, pixel_row_layout = row padding); the single fill_contiguous call covers '
+              'the drawable box and its colour stream is the pixels in row-major order with exactly w*h items (stream_is_pixels, '
+              'stream_exact); rendering Image(d,o) sets q to pixel(q-o) inside the box and touches nothing else '
+              '(image_draw_spec); sub_image(area) shows the parent pixels inside area intersected with the parent box '
+              '(sub_image_spec); nested sub images compose (sub_sub_compose); with_center centres (with_center_spec). '
+              'The model is tied to the code by running the extracted model and the real library on the same inputs on every run.')
+LEVEL_NOTE = ('Trusted: Coq kernel, extraction (ExtrOcamlBasic), OCaml/Rust drivers. The hand-written model is validated by '
+              'differential testing (pixel maps, call log, number of colours a draining target pulls) and by an independent '
+              'byte-level reference in the p_ search suites, not proved equal to the Rust source. Colours are raw storage values; '
+              'the conversion RawUx -> colour type is the identity on the value (checked by the correspondence for the six library '
+              'colour types used + a 32 bit test colour). The pixel map semantics of fill_contiguous (row-major zip, pixels outside '
+              'the target dropped) is the DrawTarget contract (C01/C03). Unbounded Z arithmetic; theorems carry extents <= 2^29 '
+              'and draw offsets within +-2^29.')
+RULE = ('correspondence: all sizes 0..N x 0..N (N=9 quick, 16 thorough) + wide rows up to 70 px x 7 raw widths x 2 data orders: '
+        'ImageRaw::new with 6 right/wrong lengths; pixel() on the box plus a 1 px frame; draw of Image::new / with_center at '
+        'random offsets (10% near +-2^20) of the image and of 1..3 nested sub images (inside / overlapping / outside / zero sized / '
+        'whole / larger areas) and direct draw_sub_image calls, on a draw_iter-only target, a native target (call log) and a '
+        'draining native target (colours pulled), with target boxes containing / cutting / missing the image. '
+        'search (p_*): the same inputs judged against an independent byte-level decoder of the documented layout and explicit '
+        'region arithmetic (expected pixel map, one call over the box, exactly w*h colours pulled, centring).')
 EXHAUSTIVE = {'quick': False, 'thorough': False}
-ASSUMPTIONS = []
-TRUSTED = []
+ASSUMPTIONS = ['image extents within 2^29 and draw offsets within +-2^29 (range in which the unbounded model equals the '
+               'u32/usize/i32 arithmetic; the C08 part covers display-scale totality)',
+               'bits per pixel is one of 1, 2, 4, 8, 16, 24, 32 (the seven RawData types of the library)',
+               'sub image areas have non-negative sizes (u32 in the implementation)']
+TRUSTED = ['modelled, not verified: slice::get / get(a..) / get(0..k) as nth_error / skipn / firstn, usize::saturating_add, '
+           'u16/u32::from_le_bytes/from_be_bytes, `byte >> n` then RawUx::new as (byte / 2^n) mod 2^bpp',
+           'd_pixel for SubImage (re-basing by the area top left) is specification, SubImage has no pixel() in the library',
+           'a direct ImageDrawable::draw_sub_image call with an area outside a SubImage\'s own box is documented as '
+           'not-to-be-called; it is compared model-vs-code but not judged by the search suite']
 PARTIAL = []
 
 BPPS = [1, 2, 4, 8, 16, 24, 32]
